@@ -60,8 +60,8 @@ func (stubWallet) Address() types.Address { return types.VoidAddress }
 func (stubWallet) FundV2Transaction(*types.V2Transaction, types.Currency, bool) (types.ChainIndex, []int, error) {
 	return types.ChainIndex{}, nil, errors.New("stub wallet")
 }
-func (stubWallet) SignV2Inputs(*types.V2Transaction, []int)                     {}
-func (stubWallet) ReleaseInputs([]types.Transaction, []types.V2Transaction)     {}
+func (stubWallet) SignV2Inputs(*types.V2Transaction, []int)                 {}
+func (stubWallet) ReleaseInputs([]types.Transaction, []types.V2Transaction) {}
 func (stubWallet) BroadcastV2TransactionSet(types.ChainIndex, []types.V2Transaction) error {
 	return errors.New("stub wallet")
 }
